@@ -147,7 +147,7 @@ def check_case(case, ctx):
 
 
 def reach(counters, tier, info):
-    k = 1 if tier == "quick" else 12
+    k = 0.5 if tier == "quick" else 12
     out = []
     for cfg in CONFIGS:
         v = counters.get("predicate:" + cfg, 0)
